@@ -137,8 +137,23 @@ NASTY_STRINGS = ['a"b', "back\\slash", 'q"\\"q', "\\", '"', '""', "\\\\", "tab\t
                  '{"id": "x"}', "é日本", "end\\", '\\"', "\\u0022", "</script>", " ", "a,b", "a:b", " lead", "trail "]
 
 
+# line boundaries of str.splitlines other than LF/CR, BOM, unpaired surrogates (legal in a Python str, e.g. from
+# surrogateescape), canonically equivalent spellings
+LINE_BREAKERS = ["\u2028", "\u2029", "\u0085", "\x0b", "\x0c", "\x1c", "\x1d", "\x1e"]
+LONE_SURROGATES = ["\udcff", "\ud800", "\udc00", "\udbff", "\ud83d"]
+SURR_LO, SURR_HI, SURR_PUA = 0xD800, 0xDFFF, 0xF0000
+
+
 def gen_str(rng, nonempty=False):
     c = rng.random()
+    if c < 0.06:
+        return rng.choice(core.NASTY_TEXTS)
+    if c < 0.10:
+        return rng.choice(["line", "", "x"]) + rng.choice(LINE_BREAKERS) + rng.choice(["sep", "", "\n"])
+    if c < 0.13:
+        return rng.choice(["", "a", "\U0001F600"]) + rng.choice(LONE_SURROGATES) + rng.choice(["", "b", "x\udc00"])   # never a high next to a low one (that is a pair)
+    if c < 0.16:
+        return rng.choice(rng.choice(core.NORMALISATION_PAIRS))
     if c < 0.3:
         return rng.choice(NASTY_STRINGS)
     if c < 0.4:
@@ -151,7 +166,7 @@ def gen_str(rng, nonempty=False):
     for _ in range(n):
         while True:
             cp = rng.randrange(0x110000)
-            if not 0xD800 <= cp <= 0xDFFF:
+            if not 0xD800 <= cp <= 0xDFFF and not SURR_PUA <= cp < SURR_PUA + 0x800:
                 break
         out.append(chr(cp))
     return "".join(out)
@@ -159,6 +174,10 @@ def gen_str(rng, nonempty=False):
 
 def gen_ids(rng, n, prefix):
     ids, seen = [], set()
+    if n >= 2 and rng.random() < 0.12:
+        # two canonically equivalent spellings are two DISTINCT IDs
+        ids = core.twin_ids(rng, 1)[:n]
+        seen = set(ids)
     while len(ids) < n:
         if rng.random() < 0.35:
             s = "%s%d" % (prefix, len(ids))
@@ -179,6 +198,7 @@ def gen_float(rng):
     c = rng.random()
     if c < 0.35:
         return rng.choice([1e-7, 0.1234567891, 5e-324, 1.7976931348623157e308, 1e300, -1e-7, 0.1, 1 / 3.0, 2.5, -0.0, 1e16,
+                           2.225073858507201e-308, 1e-310, -4.9e-324, 16777217.0, 2.0 ** 24 + 3, 2.0 ** 53 + 2, 4294967297.0, 0.3,
                            1e22, 1e23, 123456.789, 2.2250738585072014e-308, 9007199254740993.0, 1e-5, 0.0001, 100.0])
     return core.gen_value(rng, rng.choice(core.VALUE_CLASSES))
 
@@ -268,6 +288,12 @@ def gen_spec(rng, max_n, max_m):
     m = rng.choice([1, 1, 2, 3, rng.randint(1, max_m), rng.randint(1, max_m)])
     spec = {"obs": gen_ids(rng, n, "O"), "samp": gen_ids(rng, m, "S"), "rows": gen_rows(rng, n, m),
             "omd": gen_md(rng, n), "smd": gen_md(rng, m)}
+    if rng.random() < 0.1:
+        # the same names on both axes
+        k = min(n, m)
+        spec["samp"][:k] = spec["obs"][:k]
+        if len(set(spec["samp"])) != m:
+            spec["samp"] = spec["obs"][:k] + ["S_%d" % j for j in range(m - k)]
     c = rng.random()
     spec["type"] = None if c < 0.25 else (rng.choice(core.TYPES[1:]) if c < 0.6 else gen_str(rng))
     c = rng.random()
@@ -356,7 +382,7 @@ def large_table(rng, n, m, density, kind):
 
 INPLACE_EDITS = ["del_md_subset_obs", "del_md_subset_samp", "del_md_subset_whole", "del_md_all_obs", "del_md_all_whole",
                  "add_md_existing_obs", "add_md_existing_samp", "mutate_dict_obs", "mutate_dict_samp", "mutate_nested_obs",
-                 "replace_value_samp", "transform_inplace", "filter_inplace", "update_ids_inplace", "set_type_id"]
+                 "replace_value_samp", "transform_inplace", "filter_inplace", "update_ids_inplace", "rotate_ids_inplace", "set_type_id"]
 
 
 def _axis_keys(t, axis):
@@ -435,6 +461,14 @@ def apply_inplace_edit(rng, t, edit):
         # the new IDs are longer than every existing one (fixed-width ID arrays)
         t.update_ids({i: str(i) + "_r\"" + "L" * (longest + 3) for i in t.ids(axis=axis)}, axis=axis, inplace=True)
         return True
+    if edit == "rotate_ids_inplace":
+        # every ID moves to its neighbour's place: old and new ID sets are equal, only the assignment changes
+        axis = rng.choice(["observation", "sample"])
+        ids = [str(i) for i in t.ids(axis=axis)]
+        if len(ids) < 2:
+            return False
+        t.update_ids(dict(zip(ids, ids[1:] + ids[:1])), axis=axis, inplace=True)
+        return True
     if edit == "set_type_id":
         t.type = "Taxon table" if t.type != "Taxon table" else None
         t.table_id = "changed\\id"
@@ -443,6 +477,42 @@ def apply_inplace_edit(rng, t, edit):
 
 
 # ----------------------------------------------------------------------------- one case
+_SURR_RE = re.compile("[\ud800-\udfff]")
+_XP_HITS = [0]
+
+
+def xp(v):
+    """transport encoding towards the driver: Lean strings hold Unicode scalar values only, so an unpaired surrogate
+    travels as a private-use character (U+F0000 + offset; the generators never produce that block themselves)"""
+    if isinstance(v, str):
+        if _SURR_RE.search(v):
+            _XP_HITS[0] += 1
+            return _SURR_RE.sub(lambda m: chr(SURR_PUA + ord(m.group(0)) - SURR_LO), v)
+        return v
+    if isinstance(v, list):
+        return [xp(x) for x in v]
+    if isinstance(v, dict):
+        return {k: xp(x) for k, x in v.items()}
+    return v
+
+
+def unxp(v):
+    if isinstance(v, str):
+        return "".join(chr(SURR_LO + ord(ch) - SURR_PUA) if SURR_PUA <= ord(ch) < SURR_PUA + 0x800 else ch for ch in v)
+    if isinstance(v, list):
+        return [unxp(x) for x in v]
+    if isinstance(v, dict):
+        return {k: unxp(x) for k, x in v.items()}
+    return v
+
+
+def has_surrogate(v):
+    return xp(v) != v
+
+
+_SHARED_STREAM = io.StringIO()       # one stream object re-used by many writes
+
+
 class MinimalWriter:
     """a `direct_io` target that has nothing but `write`"""
 
@@ -463,7 +533,8 @@ class _FixedDT(datetime.datetime):
 
 
 EXTRA_READERS = ["load_table_pathlib", "load_table_handle", "parse_table_text", "parse_table_dense_flag", "from_json_dense_flag",
-                 "from_json_data_pump", "from_json_direct", "parse_table_lines_direct", "load_table_gzip_direct"]
+                 "from_json_data_pump", "from_json_direct", "parse_table_lines_direct", "load_table_gzip_direct",
+                 "parse_table_splitlines_keepends", "parse_table_split_newline", "from_json_same_dict_twice"]
 
 
 def run_case(ctx, t, gen_by, date, tags=(), label=None, want_text=True, opts=None):
@@ -477,13 +548,15 @@ def run_case(ctx, t, gen_by, date, tags=(), label=None, want_text=True, opts=Non
     import biom.err
     opts = opts or {}
     os.makedirs(TMP, exist_ok=True)
-    inp = opts.get("expect") or table_input(t)
+    hits0 = _XP_HITS[0]
+    inp = xp(opts.get("expect") or table_input(t))
+    gen_by_x = xp(gen_by)
     date_s = (FIXED_NOW if date is None else date).isoformat()
-    case = {"table": inp, "generated_by": gen_by, "date": date_s, "label": label,
+    case = {"table": inp, "generated_by": gen_by_x, "date": date_s, "label": label,
             "opts": {k: (v if isinstance(v, (str, bool, list, dict)) else True) for k, v in opts.items()
                      if k not in ("expect", "produce")}}
     nnz = sum(1 for r in inp["rows"] for x in r if x != "0")
-    ctx.case({"table": inp, "generated_by": gen_by, "date": date_s},
+    ctx.case({"table": inp, "generated_by": gen_by_x, "date": date_s},
              nontrivial=(len(inp["obs"]) * len(inp["samp"]) >= 2 or nnz >= 1))
     p = os.path.join(TMP, "t_%d.biom" % os.getpid())
     pd = p + ".direct"
@@ -498,6 +571,11 @@ def run_case(ctx, t, gen_by, date, tags=(), label=None, want_text=True, opts=Non
             stack.enter_context(warnings.catch_warnings())
             warnings.simplefilter("ignore")
             stack.enter_context(biom.err.errstate(**opts["profile"]))
+        elif opts.get("warn_error"):
+            # a warnings filter that turns every warning of the library into an exception
+            stack.enter_context(warnings.catch_warnings())
+            warnings.simplefilter("error")
+            warnings.simplefilter("ignore", ResourceWarning)
         try:
             writer = opts.get("writer", "file")
 
@@ -514,6 +592,17 @@ def run_case(ctx, t, gen_by, date, tags=(), label=None, want_text=True, opts=Non
                         ret = t.to_json(gen_by, direct_io=f, creation_date=date)
                     with open(pd, encoding="utf-8") as f:
                         out = f.read()
+                elif writer == "stringio_reused":
+                    # the same stream object as in earlier calls: this document is what was appended
+                    w = _SHARED_STREAM
+                    if w.tell() > 1 << 20:
+                        w.seek(0)
+                        w.truncate()
+                    at = w.tell()
+                    ret = t.to_json(gen_by, direct_io=w, creation_date=date)
+                    out = w.getvalue()[at:]
+                    with open(pd, "w", encoding="utf-8") as f:
+                        f.write(out)
                 else:
                     w = io.StringIO() if writer == "stringio" else MinimalWriter()
                     ret = t.to_json(gen_by, direct_io=w, creation_date=date)
@@ -524,7 +613,11 @@ def run_case(ctx, t, gen_by, date, tags=(), label=None, want_text=True, opts=Non
                     raise AssertionError("to_json(direct_io=...) returned %r" % (ret,))
                 return out
             if opts.get("produce"):
-                text, text_d = opts["produce"]()
+                res = opts["produce"]()
+                text, text_d = res[0], res[1]
+                if len(res) > 2:                    # the front end chose the date itself
+                    date_s = res[2]
+                    case["date"] = date_s
                 with open(pd, "w", encoding="utf-8") as f:
                     f.write(text_d)
             elif opts.get("direct_first"):
@@ -535,23 +628,38 @@ def run_case(ctx, t, gen_by, date, tags=(), label=None, want_text=True, opts=Non
                 text_d = write_direct()
         except Exception as e:  # noqa
             ctx.fail(case, "convert:raised" if opts.get("produce") else "to_json:raised", list(tags),
-                     detail="%s: %s" % (type(e).__name__, e))
+                     detail=xp("%s: %s" % (type(e).__name__, e)))
             return None
         try:
             toks = tokenize(text)
         except LexError as e:
-            ctx.fail(case, "string:lex-error", list(tags), detail={"error": str(e), "text": text[:2000]})
+            ctx.fail(case, "string:lex-error", list(tags), detail=xp({"error": str(e), "text": text[:2000]}))
             return None
         try:
             toks_d = tokenize(text_d)
         except LexError as e:
-            ctx.fail(case, "direct:lex-error", list(tags), detail={"error": str(e), "text": text_d[:2000]})
+            ctx.fail(case, "direct:lex-error", list(tags), detail=xp({"error": str(e), "text": text_d[:2000]}))
             return None
         from biom import Table, load_table, parse_table
-        with open(p, "w", encoding="utf-8") as f:
-            f.write(text)
-        with gzip.open(pz, "wb") as f:
-            f.write(text.encode("utf-8"))
+        try:
+            # a document is put into a file as UTF-8 (what load_table reads)
+            with open(p, "w", encoding="utf-8") as f:
+                f.write(text)
+            with gzip.open(pz, "wb") as f:
+                f.write(text.encode("utf-8"))
+        except UnicodeEncodeError as e:
+            ctx.fail(case, "string:not-encodable-as-utf8", list(tags), detail=str(e)[:300])
+            return None
+
+        def same_dict_twice():
+            d = json.loads(text)
+            first = Table.from_json(d)
+            if d != json.loads(text):
+                raise AssertionError("from_json changed the document handed to it")
+            second = Table.from_json(d)
+            if table_input(first) != table_input(second):
+                raise AssertionError("from_json on the same document object gave two different tables")
+            return second
 
         def from_handle():
             with open(p, encoding="utf-8") as f:
@@ -584,6 +692,7 @@ def run_case(ctx, t, gen_by, date, tags=(), label=None, want_text=True, opts=Non
             ("parse_table_lines", from_lines),
             ("from_json", lambda: Table.from_json(json.loads(text))),
             ("load_table_direct", lambda: load_table(pd)),
+            ("parse_table_splitlines", lambda: parse_table(text.splitlines())),
         ]
         extra = {
             "load_table_pathlib": lambda: load_table(__import__("pathlib").Path(p)),
@@ -595,6 +704,9 @@ def run_case(ctx, t, gen_by, date, tags=(), label=None, want_text=True, opts=Non
             "from_json_direct": lambda: Table.from_json(json.loads(text_d)),
             "parse_table_lines_direct": lambda: from_lines(pd),
             "load_table_gzip_direct": gz_direct,
+            "parse_table_splitlines_keepends": lambda: parse_table(text_d.splitlines(True)),
+            "parse_table_split_newline": lambda: parse_table(text.split("\n")),
+            "from_json_same_dict_twice": same_dict_twice,
         }
         for name in opts.get("extra", ()):
             readers.append((name, extra[name]))
@@ -607,21 +719,27 @@ def run_case(ctx, t, gen_by, date, tags=(), label=None, want_text=True, opts=Non
         for q in (p, pd, pz, pzd):
             if os.path.exists(q):
                 os.remove(q)
-    req = {"table": inp, "generated_by": gen_by, "date": date_s, "toks": toks, "toks_direct": toks_d, "reads": reads}
+    req = {"table": inp, "generated_by": gen_by_x, "date": date_s, "toks": xp(toks), "toks_direct": xp(toks_d),
+           "reads": xp(reads)}
     if opts.get("produce"):
         req["single_form"] = True
+    if _XP_HITS[0] != hits0:
+        # Lean's own Json.parse has no value for an unpaired surrogate escape: the raw-character cross-check is
+        # skipped for these documents (the token-level predicate is evaluated as for every other case)
+        want_text = False
+        ctx.count("unpaired-surrogate-doc")
     if want_text:
         req["text"] = text
         req["text_direct"] = text_d
     r = ctx.driver.ask(req)
-    case["text"] = text if len(text) < 4000 else text[:4000]
+    case["text"] = xp(text if len(text) < 4000 else text[:4000])
     if not r["model_holds"]:
         ctx.diverge(case, "theorem model_holds contradicted by the driver", list(tags))
     if not r["holds"]:
         bad = [x for x in reads if "error" in x]
-        ctx.fail(case, r["clause"], list(tags), detail={"reader_errors": bad[:3], "text_direct": text_d[:2000]})
+        ctx.fail(case, r["clause"], list(tags), detail=xp({"reader_errors": bad[:3], "text_direct": text_d[:2000]}))
     elif not r["agree"]:
-        ctx.diverge(case, "model differs: %s" % r["what"], list(tags), detail={"text_direct": text_d[:2000]})
+        ctx.diverge(case, "model differs: %s" % r["what"], list(tags), detail=xp({"text_direct": text_d[:2000]}))
     return r
 
 
@@ -633,7 +751,7 @@ def rand_opts(rng):
         o["poke"] = rng
     if rng.random() < 0.5:
         o["direct_first"] = True
-    o["writer"] = rng.choice(["file", "file", "stringio", "minimal"])
+    o["writer"] = rng.choice(["file", "file", "stringio", "minimal", "stringio_reused"])
     o["extra"] = rng.sample(EXTRA_READERS, rng.choice([0, 1, 2, 2]))
     if rng.random() < 0.5:
         o["shuffle"] = rng
@@ -641,7 +759,9 @@ def rand_opts(rng):
     if c < 0.1:
         o["profile"] = {"empty": "raise"}
     elif c < 0.2:
-        o["profile"] = {"all": rng.choice(["warn", "call", "print"]), "empty": "ignore"}
+        o["profile"] = {"all": rng.choice(["warn", "call"]), "empty": "ignore"}
+    elif c < 0.3:
+        o["warn_error"] = True
     return o
 
 
@@ -689,6 +809,32 @@ def build_fixed(name):
         return Table(np.array([[1e19, 1.0], [2.0 ** 63, -1e25], [1e300, 3.0]]), list("abc"), ["x", "y"]), "g", d0
     if name == "id-trailing-newline":
         return Table(np.array([[1.0, 2.0], [3.0, 4.0]]), ["abc\n", "GG_OTU-1.5"], ["s1\n", "\ns2"]), "g", d0
+    if name == "group-metadata":
+        return (Table(np.array([[1.0, 0.0], [0.0, 2.5]]), ["a", "b"], ["x", "y"], [{"k": "v"}, {"k": "w"}], None,
+                      observation_group_metadata={"tree": ("newick", "(a:0.1,b:0.2);")},
+                      sample_group_metadata={"graph": ("csv", "x,y\n")}, type="OTU table"), "g", d0)
+    if name == "deeply-nested-metadata":
+        v = "leaf\u2028"
+        for k in range(60):
+            v = [v, k] if k % 2 else {"d%d" % k: v}
+        return Table(np.array([[1.0]]), ["a"], ["x"], [{"deep": v}], [{"deep": [v, [v]]}]), "g", d0
+    if name == "more-than-512-ids":
+        arr = np.zeros((600, 3))
+        arr[::5, 0] = 16777217.0
+        arr[3::7, 2] = 1e-310
+        return Table(arr, ["o%d" % i for i in range(600)], ["s1", "s2", "s3"]), "g", d0
+    if name == "more-than-512-samples":
+        arr = np.zeros((2, 700))
+        arr[0, ::3] = 0.3
+        arr[1, 5::11] = 2.0 ** 53 + 2
+        return Table(arr, ["o1", "o2"], ["s%d" % i for i in range(700)], None, [{"n": i} for i in range(700)]), "g", d0
+    if name == "line-separators-and-twins":
+        return (Table(np.array([[1.0, 2.0, 0.0], [0.0, 4.0, 5.5]]), ["caf\u00e9", "cafe\u0301"],
+                      ["ls\u2028x", "ps\u2029x", "nel\u0085x"], [{"k\u2028": "v\u0085"}, {"k\u2028": "\"q%s"}],
+                      type="t\u2029"), "g\u2028", d0)
+    if name == "unpaired-surrogates":
+        return (Table(np.array([[1.0, 0.0], [0.0, 2.5]]), ["a\udcff", "\ud800b"], ["x", "\udc00"],
+                      [{"k\udcff": "v\udc00"}, {"k\udcff": ["\ud83d"]}], type="t\udbff", table_id="i\udcff"), "g\udcff", d0)
     if name == "non-bmp-ids":
         return Table(np.array([[1.0, 2.5]]), ["\U0001F600\U0010FFFF"], ["s ", "\x7f\x01"], type="\U00010000"), "\U0001F600", d0
     raise ValueError(name)
@@ -697,7 +843,8 @@ def build_fixed(name):
 FIXED = ["repaired-9c6706ed-header-strings", "repaired-f3626f61-value-precision", "repaired-e8ba4fdc-all-zero-table",
          "all-zero-1x1", "empty-0x0", "middle-zero-row", "first-last-zero-rows", "extreme-values", "metadata-kinds",
          "metadata-partial", "non-bmp-ids", "md-np-bool", "cancelling-rows", "aware-date", "whole-numbers-beyond-int64",
-         "id-trailing-newline"]
+         "id-trailing-newline", "group-metadata", "deeply-nested-metadata", "more-than-512-ids", "more-than-512-samples",
+         "line-separators-and-twins", "unpaired-surrogates"]
 
 
 def warmup(ctx):
@@ -761,7 +908,7 @@ def check_refusal(ctx, t, rng):
 
 DERIVATIONS = ["copy", "filter_false", "sort_order", "transpose2", "sort", "from_json", "ctor_shared_md"]
 SAFE_EDITS = ["del_md_subset_obs", "del_md_subset_samp", "mutate_dict_obs", "mutate_dict_samp", "replace_value_samp",
-              "transform_inplace", "filter_inplace", "update_ids_inplace", "add_md_existing_obs", "set_type_id",
+              "transform_inplace", "filter_inplace", "update_ids_inplace", "rotate_ids_inplace", "add_md_existing_obs", "set_type_id",
               "del_md_all_whole"]
 
 
@@ -858,7 +1005,10 @@ def write_convert_input(t, fmt, path):
         raise ValueError(fmt)
 
 
-def convert_case(ctx, rng, spec, fmt, flags, mapping=None, tags=(), obs_mapping=None):
+C_LOCALE = {"LC_ALL": "C", "LANG": "C", "LANGUAGE": "", "PYTHONUTF8": "0", "PYTHONCOERCECLOCALE": "0", "PYTHONIOENCODING": ""}
+
+
+def convert_case(ctx, rng, spec, fmt, flags, mapping=None, tags=(), obs_mapping=None, sub_env=None):
     """write `spec` as `fmt`, run the real `biom convert -i … -o … --to-json <flags>` (sub-command object, in
     process) and judge the file it writes by the same predicate.  Expected content = what `load_table` reads from
     the input, with the documented effect of the flags that apply to JSON output: --table-type (else a missing
@@ -874,7 +1024,7 @@ def convert_case(ctx, rng, spec, fmt, flags, mapping=None, tags=(), obs_mapping=
     base = os.path.join(TMP, "cv_%d" % os.getpid())
     pin, pout, pmap, pomap = base + ".in", base + ".out", base + ".map", base + ".omap"
     label = "convert:%s:%s" % (fmt, " ".join(flags) + (" -m" if mapping else "") +
-                               (" --observation-metadata-fp" if obs_mapping else ""))
+                               (" --observation-metadata-fp" if obs_mapping else "") + (" [C locale]" if sub_env else ""))
     try:
         try:
             t = core.build(spec, "dense")
@@ -925,6 +1075,33 @@ def convert_case(ctx, rng, spec, fmt, flags, mapping=None, tags=(), obs_mapping=
         expect["omd"] = md_obs(omd, len(expect["obs"]))
         expect["smd"] = md_obs(smd, len(expect["samp"]))
 
+        def produce_sub():
+            # the installed entry point in its own process, under the given environment (locale)
+            import subprocess
+            import sys
+            if os.path.exists(pout):
+                os.remove(pout)
+            env = dict(os.environ, PYTHONPATH=core.REPO, **sub_env)
+            t_before = datetime.datetime.now()
+            r = subprocess.run([sys.executable, "-c",
+                                "import sys; from biom.cli import cli; sys.argv[0] = 'biom'; cli()", "convert"] + args,
+                               env=env, capture_output=True, text=True, errors="replace", timeout=120)
+            t_after = datetime.datetime.now()
+            if r.returncode != 0:
+                raise RuntimeError("biom convert (subprocess) exit code %s: %s" % (r.returncode, (r.stderr or "")[-400:]))
+            with open(pout, "rb") as f:
+                raw = f.read()
+            text = raw.decode("utf-8")            # load_table reads UTF-8: a file that is not UTF-8 is a failure
+            m = re.search(r'"date": "([^"]*)"', text)
+            date_s = m.group(1) if m else ""
+            try:
+                when = datetime.datetime.fromisoformat(date_s)
+                if not (t_before - datetime.timedelta(seconds=1) <= when <= t_after + datetime.timedelta(seconds=1)):
+                    raise ValueError("creation date %s is not the time of the call" % date_s)
+            except ValueError as e:
+                raise RuntimeError("default creation date: %s" % e)
+            return text, text, date_s
+
         def produce():
             if os.path.exists(pout):
                 os.remove(pout)
@@ -944,10 +1121,13 @@ def convert_case(ctx, rng, spec, fmt, flags, mapping=None, tags=(), obs_mapping=
             with open(pout, encoding="utf-8") as f:
                 text = f.read()
             return text, text
-        o = {"produce": produce, "expect": expect, "extra": rng.sample(EXTRA_READERS[:6], 1),
-             "convert": {"spec": spec, "fmt": fmt, "flags": list(flags), "mapping": mapping, "obs_mapping": obs_mapping}}
+        o = {"produce": produce_sub if sub_env else produce, "expect": expect, "extra": rng.sample(EXTRA_READERS[:6], 1),
+             "convert": {"spec": spec, "fmt": fmt, "flags": list(flags), "mapping": mapping, "obs_mapping": obs_mapping,
+                         "sub_env": sub_env}}
         run_case(ctx, None, biom.parse.generatedby(), None, tags=("convert", fmt) + tuple(tags), label=label, opts=o)
         ctx.count("convert-from=" + fmt)
+        if sub_env:
+            ctx.count("convert-subprocess-C-locale")
         for fl in flags:
             if fl.startswith("--"):
                 ctx.count("convert-flag=" + fl)
@@ -996,6 +1176,16 @@ def convert_stream(ctx, rng):
                 omap = "#OTUID\tconfidence\n" + "".join("%s\t0.%d\n" % (i, k + 1) for k, i in enumerate(spec["obs"]) if '"' not in i)   # the mapping parser drops quotes
                 convert_case(ctx, rng, spec, fmt, ["--process-obs-metadata", "naive"], obs_mapping=omap,
                              tags=("systematic", "obs-mapping"))
+    # the real entry point in a sub-process under a C (ASCII) locale: non-ASCII IDs and metadata must still arrive
+    for k in range(3 if ctx.quick() else 16):
+        fmt = ["json", "hdf5", "tsv", "json.gz"][k % 4]
+        omd, smd = md_cfgs[3 + k % 3]
+        spec = convert_spec(rng, omd, smd, rng.randint(2, 5), rng.randint(2, 5))
+        spec["obs"][0] = "caf\u00e9_\u65e5\U0001F600"
+        if fmt != "tsv":
+            spec["smd"][0]["env"] = "\u00b5m \u2028 \u0085"
+        flags = rng.choice(convert_flag_sets(rng, spec, fmt, (fmt == "tsv") or omd == "text-first"))
+        convert_case(ctx, rng, spec, fmt, flags, tags=("c-locale",), sub_env=C_LOCALE)
     for _ in range(n_rand):
         omd, smd = rng.choice(md_cfgs)
         fmt = rng.choice(["json", "hdf5", "tsv", "json.gz"])
@@ -1062,8 +1252,9 @@ def run(ctx):
                     ctx.count("history=" + e2)
     # large tables: the data block runs to hundreds of KiB (any buffering / chunking in a writer path shows
     # only here); the full predicate is evaluated by the driver on them as on every other case
-    large = [(150, 90, 0.8, "int"), (120, 80, 0.5, "frac"), (170, 100, 1.0, "frac"), (130, 70, 0.9, "mixed")]
+    large = [(150, 90, 0.8, "int"), (120, 80, 0.5, "frac"), (130, 70, 0.9, "mixed")]
     if not ctx.quick():
+        large.append((170, 100, 1.0, "frac"))
         for _ in range(20):
             large.append((rng.randint(100, 220), rng.randint(60, 110), rng.choice([0.3, 0.5, 0.8, 1.0]),
                           rng.choice(["int", "frac", "mixed"])))
@@ -1111,7 +1302,7 @@ def run(ctx):
         for edit in (["mutate_dict_obs", "del_md_subset_samp", "transform_inplace", "update_ids_inplace"] if ctx.quick()
                      else SAFE_EDITS):
             alias_case(ctx, rng, core.build(hist_spec, rng.choice(core.ROUTES)), how, edit, ("systematic",))
-    n = 820 if ctx.quick() else 13000
+    n = 650 if ctx.quick() else 11000
     max_n = 6 if ctx.quick() else 9
     for k in range(n):
         spec = gen_spec(rng, max_n, max_n)
@@ -1178,9 +1369,10 @@ def replay(ctx, rec):
     if cv:
         import random
         convert_case(ctx, random.Random(0), cv["spec"], cv["fmt"], cv["flags"], mapping=cv.get("mapping"),
-                     obs_mapping=cv.get("obs_mapping"), tags=("replay",))
+                     obs_mapping=cv.get("obs_mapping"), tags=("replay",), sub_env=cv.get("sub_env"))
         return
-    inp = case["table"]
+    inp = unxp(case["table"])
+    case = dict(case, generated_by=unxp(case["generated_by"]))
 
     def from_j(j):
         if j is None or isinstance(j, bool):
